@@ -3,8 +3,9 @@ import contracts.all  # noqa
 import contracts.mailbox as M
 import contracts.storage as ST
 import contracts.processor as PR
+import contracts.getiter as GI
 
-PROVED = [M.KFE_E, M.KFE_L, M.KILL_E, M.KILL_L, M.SEND_FROM_E, M.SEND_FROM_L, M.SEND_E, M.READ_E, ST.save_from, PR.tmp_iter, PR.stp_iter]
+PROVED = [M.KFE_E, M.KFE_L, M.KILL_E, M.KILL_L, M.SEND_FROM_E, M.SEND_FROM_L, M.SEND_E, M.READ_E, ST.save_from, PR.tmp_iter, PR.stp_iter, GI.get_iter]
 
 PROPERTY = Property(
     "C06", "other",
@@ -13,7 +14,6 @@ PROPERTY = Property(
     trusted=["pyvc VC generator, value model and monitor rule", "z3 5.1.0 / cvc5 1.4.0"],
     assumptions=["ONLY the exception-relay contracts are decided: that every pipeline thread terminates, that nothing hangs and that "
                  "processing terminates when the capacity exceeds the largest lag are liveness statements outside this family",
-                 "Context.get_iter's own relay (throwing OutsideException / the consumer's exception into the processor) is not under contract",
                  "ThreadedMailboxProcessor.iter: on a GeneratorExit arriving directly (only when the processor is driven without "
                  "Context.get_iter) the code assigns into a tuple and raises TypeError before killing the mailboxes - observation F9; the "
                  "contract allows that TypeError and proves the relay for every other failure"],
@@ -24,5 +24,7 @@ PROPERTY = Property(
                 "the mailbox; processor level: when the target's generator fails, ThreadedMailboxProcessor.iter kills EVERY mailbox "
                 "upstream with the failure's reason, cleans EVERY mailbox up (joins its threads), shuts the executors down and only then "
                 "re-raises; SingleThreadProcessor.iter closes every saver while the exception is being handled (so it is recorded) "
-                "before re-raising it",
+                "before re-raising it; Context.get_iter throws a failure that occurs while chunks are consumed into the processor's "
+                "generator before the caller gets its error, throws an OutsideException into it when the consumer closes the iterator, and "
+                "ends normally only after the generator was exhausted or told so",
 )
